@@ -208,6 +208,11 @@ func Direct3(s sdf.SDF3, r render.Render3) (batches [][]int, bad int) {
 		for ts := range c {
 			b := make([]int, 0, len(ts))
 			for _, t := range ts {
+				if t == nil { // hole left by a racing writer: not among those written
+					bad++
+					b = append(b, -1)
+					continue
+				}
 				id, ok := TriID(t[0], t[1], t[2])
 				if !ok {
 					bad++
@@ -231,6 +236,11 @@ func Direct2(s sdf.SDF2, r render.Render2) (batches [][]int, bad int) {
 		for ls := range c {
 			b := make([]int, 0, len(ls))
 			for _, l := range ls {
+				if l == nil { // hole left by a racing writer: not among those written
+					bad++
+					b = append(b, -1)
+					continue
+				}
 				id, ok := LineID(l[0], l[1])
 				if !ok {
 					bad++
